@@ -33,6 +33,9 @@ func c06(e *Env) {
 			}
 			g := e.Gen(o, t.QName, ci)
 			v := g.Value(t)
+			if ci == len(cs)-1 {
+				v = e.C.New[t.QName]() // the zero value: every nested part, body and extension absent (encoders materialise them)
+			}
 			fresh, ferr, fp := EncodeFresh(val.Clone(v))
 			if fp != nil || ferr != nil {
 				// an encode that fails may leave a partial frame behind, but it must not alter what was in the buffer
@@ -56,6 +59,24 @@ func c06(e *Env) {
 				continue
 			}
 			hv := val.Hash(v)
+			// (vi) what one message's encode attached to it (materialised parts, a filled-in body or extension) is
+			// scribbled over in place; an equal, untouched message must still encode to the same bytes
+			{
+				a, b2 := val.Clone(v), val.Clone(v)
+				if _, err, p := EncodeFresh(a); err == nil && p == nil {
+					scramble(reflect.ValueOf(a), gen.NewRng(e.Seed, "C06", "scribble", t.QName, ci))
+					w2, err2, p2 := EncodeFresh(b2)
+					evals++
+					if p2 == nil && (err2 != nil || !bytes.Equal(w2, fresh)) {
+						d := firstDiffPlain(w2, fresh)
+						d["type"], d["case"], d["value"], d["error"] = t.QName, ci, val.Summary(v, 300), fmt.Sprint(err2)
+						d["history"] = "an equal message was encoded first and then overwritten in place (including whatever its Encode attached to it)"
+						r.Violate("C06/bytes-depend-on-another-message-that-was-modified-after-its-encode/"+t.QName, "C06/bytes-depend-on-another-message/"+t.QName, d)
+						continue
+					}
+					lf["equal-message-encodes-identically-after-the-first-was-overwritten"]++
+				}
+			}
 			for h := 0; h < nHist; h++ {
 				m := val.Clone(v)
 				room := 0
